@@ -278,13 +278,10 @@ fn bulk_rank1_avx512(bit_data: &[u64], positions: &[usize], chunk_size: usize) -
     let mut results = Vec::with_capacity(positions.len());
 
     for &pos in positions {
+        // Positions at or past the end count every set bit
+        let pos = pos.min(bit_data.len() * 64);
         let word_index = pos / 64;
         let bit_offset = pos % 64;
-
-        if word_index >= bit_data.len() {
-            results.push(0);
-            continue;
-        }
 
         // Count complete words using AVX-512 vectorized popcount
         let mut rank = 0usize;
@@ -338,13 +335,10 @@ fn bulk_rank1_avx2(bit_data: &[u64], positions: &[usize], _chunk_size: usize) ->
     let mut results = Vec::with_capacity(positions.len());
 
     for &pos in positions {
+        // Positions at or past the end count every set bit
+        let pos = pos.min(bit_data.len() * 64);
         let word_index = pos / 64;
         let bit_offset = pos % 64;
-
-        if word_index >= bit_data.len() {
-            results.push(0);
-            continue;
-        }
 
         // Count complete words using AVX2 (process 4 u64s at a time)
         let mut rank = 0usize;
@@ -410,13 +404,10 @@ fn bulk_rank1_popcnt(bit_data: &[u64], positions: &[usize], use_prefetch: bool) 
     let mut results = Vec::with_capacity(positions.len());
 
     for &pos in positions {
+        // Positions at or past the end count every set bit
+        let pos = pos.min(bit_data.len() * 64);
         let word_index = pos / 64;
         let bit_offset = pos % 64;
-
-        if word_index >= bit_data.len() {
-            results.push(0);
-            continue;
-        }
 
         let mut rank = 0usize;
 
@@ -663,13 +654,10 @@ fn bulk_rank1_neon(bit_data: &[u64], positions: &[usize]) -> Vec<usize> {
     let mut results = Vec::with_capacity(positions.len());
 
     for &pos in positions {
+        // Positions at or past the end count every set bit
+        let pos = pos.min(bit_data.len() * 64);
         let word_index = pos / 64;
         let bit_offset = pos % 64;
-
-        if word_index >= bit_data.len() {
-            results.push(0);
-            continue;
-        }
 
         let mut rank = 0usize;
 
@@ -765,13 +753,10 @@ fn bulk_rank1_scalar(bit_data: &[u64], positions: &[usize]) -> Vec<usize> {
     let mut results = Vec::with_capacity(positions.len());
 
     for &pos in positions {
+        // Positions at or past the end count every set bit
+        let pos = pos.min(bit_data.len() * 64);
         let word_index = pos / 64;
         let bit_offset = pos % 64;
-
-        if word_index >= bit_data.len() {
-            results.push(0);
-            continue;
-        }
 
         // Count complete words
         let mut rank = 0usize;
